@@ -163,6 +163,106 @@ func (w *writerA) heldOnlyWithoutPool() {
 	}
 }
 
+// poolPlumbing: the pool reaches the connection through newConn and nowhere
+// else: Conn.writePool is stored only by newConn (from its parameter), and
+// Upgrade / DialContext pass their configured WriteBufferPool as that
+// parameter.  A connection that receives its pool later has already allocated
+// a buffer of its own, which it then holds between messages and finally puts
+// into the pool.
+func (w *writerA) poolPlumbing() {
+	c, r := w.c, w.c.R
+	nc := c.fn("newConn")
+	for _, st := range c.P.FieldStoreSites(w.writePool) {
+		okS := false
+		for _, h := range c.hostsOf(st.Parent()) {
+			okS = h == nc
+		}
+		if p, isP := st.Val.(*ssa.Parameter); okS && st.Parent() == nc && !(isP && p == nc.Params[4]) {
+			okS = false
+		}
+		r.Check("C20.held-only-without-pool", shortFn(st.Parent()), "writer-of-writePool", st.Pos(), okS, "Conn.writePool is assigned only by newConn, from its pool parameter")
+	}
+	n := 0
+	for _, g := range c.P.FuncList {
+		if !callsDirectly(g, nc) || g.Synthetic != "" {
+			continue
+		}
+		var cfg *types.Var
+		for _, h := range c.hostsOf(g) {
+			switch shortFn(h) {
+			case "(*Upgrader).Upgrade":
+				cfg = c.P.Field("Upgrader", "WriteBufferPool")
+			case "(*Dialer).DialContext":
+				cfg = c.P.Field("Dialer", "WriteBufferPool")
+			}
+		}
+		if cfg == nil {
+			continue
+		}
+		ok, why := true, "newConn is given the configured WriteBufferPool"
+		seen := 0
+		c.explore("C20.held-only-without-pool", g, core.Opts{Unroll: 0, NonNilOnNilErr: true, MaxPaths: 400000, Stop: func(x *core.Explorer, ev *core.Event) bool { return callsStatic(ev, nc) }}, func(p *core.Path) {
+			if p.End != core.EndStop {
+				return
+			}
+			seen++
+			ev := &p.Events[len(p.Events)-1]
+			if _, is := fieldLoad(strip(ev.Args[4]), cfg); !is {
+				ok, why = false, "newConn is called at "+c.P.Pos(ev.Instr.Pos())+" with the pool argument "+ev.Args[4].String()+" instead of the configured WriteBufferPool: the connection allocates and keeps a buffer of its own"
+			}
+		})
+		if seen > 0 {
+			n++
+			r.Check("C20.held-only-without-pool", shortFn(g), "newConn-pool-argument", g.Pos(), ok, why)
+		}
+	}
+	if n < 2 {
+		r.Fail("C20.held-only-without-pool", "", "newConn-callers", nc.Pos(), "fewer than the 2 known configuration-carrying callers of newConn were analysed")
+	}
+}
+
+// writeErrorEndsMessage: WriteMessage (and applications following the
+// io.Writer contract) give up on a message when Write fails, without calling
+// Close: every non-nil error returned by Write / WriteString / ReadFrom is
+// either the error the message already ended with (w.err) or comes from a path
+// that has passed endMessage, so the pooled buffer is back in the pool.
+func (w *writerA) writeErrorEndsMessage() {
+	c, r := w.c, w.c.R
+	inl := func(f *ssa.Function, depth int) bool { return f == w.ncopy || f == w.flush }
+	for _, fn := range []*ssa.Function{w.mwWrite, w.mwWS, w.mwRF} {
+		ok, why := true, "a failing write has ended the message (endMessage on the path, or the error is w.err)"
+		n := 0
+		c.explore("C20.all-exits", fn, core.Opts{Unroll: 0, Inline: inl, MaxPaths: 400000}, func(p *core.Path) {
+			if p.End != core.EndReturn || len(p.Results) != 2 {
+				return
+			}
+			e := p.Results[1]
+			if e.IsNil() || hasLit(p, len(p.Lits), true, func(t *core.Term) bool { return isEqNil(t, is(e)) }) {
+				return
+			}
+			n++
+			if _, is := fieldLoad(strip(e), w.mwErr); is {
+				return
+			}
+			for i := range p.Events {
+				if callsStatic(&p.Events[i], w.end) {
+					return
+				}
+			}
+			// a read error of ReadFrom's source leaves the message open on purpose (the caller still has to Close)
+			if fn == w.mwRF {
+				if s := strip(e); s.Kind == core.KExtract && s.Args[0].Kind == core.KCall {
+					if _, isF := s.Args[0].Ref.(*ssa.Function); !isF {
+						return
+					}
+				}
+			}
+			ok, why = false, "the path returning at "+c.P.Pos(p.Ret.Pos())+" returns the error "+e.String()+" without the message having ended: WriteMessage returns without closing the writer and the pooled buffer stays with the connection"
+		})
+		r.Check("C20.all-exits", shortFn(fn), "write-error-ends-message", fn.Pos(), ok && n > 0, why)
+	}
+}
+
 // implicitClose: previous writer closed first; new writer installed after success.
 func (w *writerA) implicitClose() {
 	c, r := w.c, w.c.R
